@@ -11,7 +11,7 @@ import (
 	"strings"
 	"unicode/utf8"
 
-	sim "golang.org/x/perf/internal/verifsim"
+	sim "verif.local/sim"
 )
 
 type genTextOpts struct {
